@@ -79,6 +79,23 @@ func tryFastCompound
   ensures flat-chain: result != nil ==> (result.op == "AND" || result.op == "OR")
   loop 1 invariant forall(i, 0, len(compares), fcOK(compares[i]))
 
+// the three helper functions every compiled condition offers to expr-lang: like_match(text, pattern) is the LIKE matcher on
+// exactly these two texts in this order; is_null / is_not_null answer for their one argument and are each other's negation
+func NewExprCondition$1
+  props C13 C12 C05 C06 C17
+  ensures like-match-is-the-matcher-on-text-then-pattern: len(params) == 2 && hasType(params[0], string) && hasType(params[1], string) ==> result1 == nil && result0 == boxof(matchesLikePattern(strval(params[0]), strval(params[1])), bool)
+  ensures anything-else-is-an-error-and-false: !(len(params) == 2 && hasType(params[0], string) && hasType(params[1], string)) ==> result1 != nil && result0 == boxof(false, bool)
+
+func NewExprCondition$2
+  props C13 C12 C05 C06 C17
+  ensures is-null-answers-for-its-argument: len(params) == 1 ==> result1 == nil && result0 == boxof(isNilValue(params[0]), bool)
+  ensures a-wrong-argument-count-is-an-error: len(params) != 1 ==> result1 != nil
+
+func NewExprCondition$3
+  props C13 C12 C05 C06 C17
+  ensures is-not-null-is-the-negation-of-is-null: len(params) == 1 ==> result1 == nil && result0 == boxof(!isNilValue(params[0]), bool)
+  ensures a-wrong-argument-count-is-an-error: len(params) != 1 ==> result1 != nil
+
 // the compiled condition carries the general program of the condition text itself, and at most one shortcut derived from that
 // same text: the flat chain when there is one, else the single comparison; what Evaluate requires of a shortcut holds
 func NewExprCondition
@@ -113,6 +130,7 @@ func (*ExprCondition).Evaluate
 func matchesLikePattern
   props C13 C05 C06 C12 C17
   option safety
+  option pure
   ensures empty-pattern-matches-only-empty-text: len(pattern) == 0 ==> (result <==> len(text) == 0)
   ensures empty-text-needs-all-percent: len(text) == 0 ==> (result <==> forall(i, 0, len(pattern), pattern[i] == 37))
   loop 1 invariant pi <= len(pattern)
@@ -124,6 +142,7 @@ func matchesLikePattern
 
 func isNilValue
   props C13 C05 C06 C12 C17
+  option pure
   ensures untyped-nil-is-null: v == nil ==> result
 @*/
 
